@@ -556,10 +556,26 @@ fn explore_all(prop: &str, thorough: bool, rng: &mut Rng, out: &mut Out) {
     }
 }
 
+/// Domain limit (outside the property's quantifier, reported in the evidence only, never a verdict):
+/// a transfer of 65 537 chunks overflows the controller's 16-bit chunk counter; the model has an
+/// explicit panic node there (theorem C09.transfer_overflow_panics); does the real code panic too?
+fn overflow_probe(out: &mut Out) {
+    let a = 3u16;
+    let mut line = format!("ctrl snd 2 {:04X} g:1048592:7 | {}", a, ak(a, Operation::ReceivePixels));
+    for _ in 0..65537 {
+        line.push_str(" none");
+    }
+    let r = crate::implside::run_case(&line);
+    out.stat(if r.ends_with("=> PANIC") { "domain-limit.65537-chunks.impl-panics" } else { "domain-limit.65537-chunks.impl-does-not-panic" });
+}
+
 pub fn c09(thorough: bool, rng: &mut Rng, out: &mut Out) {
     out.rule = "breadth-first enumeration of the reply tree of configure / configure-if-needed / send-pages (a script is extended by every one of the 46 reply symbols whenever the previous run consumed it entirely) for several addresses, sign types and page lists of 0..3 pages (16- and 96-byte pages), plus scripted runs with 336..65552-byte items incl. all retry paths; every recorded message sequence is parsed against the complete / ordered / offset / counted transfer shape; non-trivial = conversations with at least two messages; distinct = distinct case line".into();
     out.exhaustive_note = "the reply tree is enumerated to the natural end of each operation over the finite alphabet (subject to the run budget reported in the distribution); addresses, types and page contents are sampled".into();
     explore_all("C09", thorough, rng, out);
+    if thorough {
+        overflow_probe(out);
+    }
 }
 
 pub fn c10(thorough: bool, rng: &mut Rng, out: &mut Out) {
